@@ -12,7 +12,7 @@ ASSUMPTIONS = ["objective agreement bound: (gap_A+gap_B) + (pres_A+pres_B)(||y||
                "GLPK/DSDP are held to 1e-5 relative objective agreement (their documented default tolerances)"]
 TRANSFORMS = ["storage", "kktsolver", "wrapper", "operator", "start", "l-as-q1", "l-as-s1", "perm-rows", "perm-vars",
               "scale-objective", "backend", "python-kernels"]
-REQUIRED_COUNTERS = ["operator.x-operations-given.A-None", "pair." + t for t in TRANSFORMS] + ["names.enumerated", "names.rejected-before-factor", "names.accepted"]
+REQUIRED_COUNTERS = ["pair." + t for t in TRANSFORMS] + ["operator.x-operations-given.A-None", "names.enumerated", "names.rejected-before-factor", "names.accepted"]
 
 
 def plan(tier):
